@@ -10,10 +10,10 @@ def T(x):
     return int(x * S) + 7
 
 
-def script(tag, events, rules=(), renders=(), decline=(), mid=4096, tail=150, slow_add=()):
+def script(tag, events, rules=(), renders=(), decline=(), mid=4096, tail=150, slow_add=(), draws=None):
     last = max(ev[1] for ev in events)
     sc = {"tag": tag, "events": events, "rules": list(rules), "renders": list(renders),
-          "decline": list(decline), "draws": DRAWS, "mid": mid, "end": last + tail * S + 11}
+          "decline": list(decline), "draws": draws or DRAWS, "mid": mid, "end": last + tail * S + 11}
     if slow_add:
         sc["slow_add"] = list(slow_add)
     return sc
@@ -377,9 +377,120 @@ def misc():
     return out
 
 
+def sync_errors():
+    """a transport error reported SYNCHRONOUSLY, from inside the send of a datagram (udp6: sendmsg() raises ->
+    error_received -> dispatch_error before send() returns): x which datagram (the first response - a piggy-backed
+    ACK, a separate CON or a NON -, a notification, a last-marked / unsuccessful / explicit notification, the
+    response to a deregistration or plain GET on the token) x what the render task still has to do in that step
+    (nothing; a trigger arrived while it rendered: it renders again - immediately, suspending, raising, for a
+    last-marked or an explicit unsuccessful trigger) x CON / NON x other registrations of the same endpoint (none, a
+    second token, another endpoint) - then further changes, which must produce nothing for the endpoint, and a
+    new registration of it.  Also failures that hit the message layer's own transmissions (a retransmission, a
+    notification leaving the backlog, an empty ACK): judged by the oracle only."""
+    out = []
+    F = lambda t, remote=0, n=1: ["F", T(t), remote, n]
+    for mt in ("CON", "NON"):
+        for others in ("alone", "second-token", "other-endpoint"):
+            regs = [reg(0.01, mt=mt)]
+            if others == "second-token":
+                regs.append(reg(0.02, mid=101, tok="bb", mt=mt))
+            elif others == "other-endpoint":
+                regs.append(reg(0.02, remote=1, mid=200, tok="bb", mt=mt))
+            n = len(regs)
+            rules = acks(0) + acks(1)
+            tail = [["U", T(4.0), None], ["U", T(5.0), None], reg(6.0, mid=150, mt=mt), ["U", T(7.0), None]]
+            tag = f"sync-error:{mt}:{others}:"
+            # the notification of a change
+            out.append(script(tag + "notification", regs + [["U", T(1.0), None], F(1.9), ["U", T(2.0), None]] + tail, rules))
+            # the very first notification / the first response
+            out.append(script(tag + "first-notification", regs + [F(0.9), ["U", T(1.0), None]] + tail, rules))
+            out.append(script(tag + "first-response", [F(0.001)] + regs + [["U", T(1.0), None]] + tail, rules))
+            out.append(script(tag + "first-response-separate",
+                              [regs[0], F(0.2), ["L", T(0.3), 0, 69, 0]] + regs[1:] + [["U", T(1.0), None]] + tail,
+                              rules, ["s"]))
+            # a trigger arrived while the failing notification was being rendered: the task goes on in that step
+            for nxt, plan in (("imm", IMM), ("susp", "s"), ("raises", ["i", 132, 1]), ("unsuccessful", ["i", 129, 0])):
+                ev = regs + [["U", T(1.0), None], ["U", T(1.4), None], ["U", T(1.45), None], F(1.5),
+                             ["L", T(1.6), 0, 69, 0]]
+                if nxt == "susp":
+                    ev.append(["L", T(1.8), 0, 69, 0])
+                out.append(script(tag + f"then-renders-again:{nxt}", ev + tail, rules,
+                                  [IMM] * (2 * n) + ["s"] + [IMM] * (n - 1) + [plan]))
+            out.append(script(tag + "then-last-marked",
+                              regs + [["U", T(1.0), None], ["U", T(1.4), None], ["T", T(1.45), 0, None, 1], F(1.5),
+                                      ["L", T(1.6), 0, 69, 0]] + tail, rules, [IMM] * (2 * n) + ["s"]))
+            out.append(script(tag + "then-explicit-unsuccessful",
+                              regs + [["U", T(1.0), None], ["U", T(1.4), None], ["T", T(1.45), 0, 132, 0], F(1.5),
+                                      ["L", T(1.6), 0, 69, 0]] + tail, rules, [IMM] * (2 * n) + ["s"]))
+            # the failing datagram is the registration's final one
+            out.append(script(tag + "last-marked", regs + [["U", T(1.0), None], F(1.9), ["T", T(2.0), 0, None, 1]] + tail, rules))
+            out.append(script(tag + "explicit", regs + [["U", T(1.0), None], F(1.9), ["U", T(2.0), 69]] + tail, rules))
+            out.append(script(tag + "unsuccessful", regs + [["U", T(1.0), None], F(1.9), ["U", T(2.0), None]] + tail,
+                              rules, [IMM] * (2 * n) + [["i", 129, 0]]))
+            out.append(script(tag + "render-raises", regs + [["U", T(1.0), None], F(1.9), ["U", T(2.0), None]] + tail,
+                              rules, [IMM] * (2 * n) + [["i", 163, 1]]))
+            # the answer to a new request on the token (the registration is over by then)
+            for obs in (1, None, 0):
+                out.append(script(tag + f"answer-to-request:{obs}",
+                                  regs + [["U", T(1.0), None], F(1.9), ["R", T(2.0), 0, mt, 120, "aa", obs]] + tail, rules))
+            # two sends in a row fail (the second registration's turn comes in the same tick)
+            out.append(script(tag + "twice", regs + [["U", T(1.0), None], F(1.9, n=2), ["U", T(2.0), None],
+                                                       ["U", T(2.5), None]] + tail, rules))
+            # the error is for the OTHER endpoint / armed and disarmed again
+            out.append(script(tag + "unrelated-endpoint", regs + [["U", T(1.0), None], F(1.9, remote=2), ["U", T(2.0), None]]
+                              + tail, rules))
+            out.append(script(tag + "disarmed", regs + [["U", T(1.0), None], F(1.9), F(1.95, n=0), ["U", T(2.0), None]]
+                              + tail, rules))
+            # shutdown afterwards (nothing may be left behind)
+            out.append(script(tag + "then-shutdown", regs + [["U", T(1.0), None], F(1.9), ["U", T(2.0), None],
+                                                               ["U", T(3.0), None], ["X", T(3.5)]], rules))
+        # failures that hit the message layer's own transmissions (oracle only)
+        out.append(script(f"sync-error:{mt}:retransmission", [reg(0.01, mt=mt), ["U", T(1.0), None], F(1.5),
+                                                              ["U", T(9.0), None]], []))
+        out.append(script(f"sync-error:{mt}:backlog", [reg(0.01, mt=mt), ["U", T(1.0), None], ["U", T(1.1), None], F(1.2),
+                                                       ["U", T(9.0), None]], acks(0, after=0.5)))
+        out.append(script(f"sync-error:{mt}:empty-ack", [reg(0.01, mt=mt), F(0.05), ["L", T(0.5), 0, 69, 0],
+                                                         ["U", T(2.0), None]], acks(0), ["s"]))
+    return out
+
+
+LONG_DRAWS = [2 * S + 1009 * i + 13 for i in range(400)]
+BURST_SIZES = [8, 9, 10, 15, 16, 17, 18, 19, 20, 24, 25, 31, 32, 33, 40, 41, 50, 64, 65, 100]
+
+
+def long_bursts(sizes=BURST_SIZES):
+    """long bursts of separately rendered changes while the observer's acknowledgement is late (sizes around powers of
+    two and round decimal numbers: wherever an implementation may bound what it holds back for an endpoint); then
+    the acknowledgements arrive, the resource is quiet, and the last state must have been sent.  With a second
+    observer that acknowledges at once / a second registration of the same endpoint (two tokens share the endpoint's
+    backlog) / a NON observer next to it; the late acknowledgement is that of the first copy (1.5 s) or of the
+    retransmission (the first copy or its ACK was lost)."""
+    out = []
+    for k in sizes:
+        changes = [["U", T(1.0) + 20011 * i, None] for i in range(k + 1)]       # k changes after the unacknowledged one
+        for late in ("slow-ack", "ack-of-retransmission"):
+            first = {"remote": 0, "mtype": "CON", "nth": 1 if late == "slow-ack" else 2,
+                     "after": (int(1.9 * S) if late == "slow-ack" else int(0.05 * S)) + 3, "do": "ack"}
+            others = [{"remote": 0, "mtype": "CON", "nth": n, "after": int(0.01 * S) + 3, "do": "ack"}
+                      for n in range(first["nth"] + 1, 2 * k + 12)]
+            variants = {
+                "alone": ([reg(0.01)], []),
+                "prompt-observer": ([reg(0.01), reg(0.02, remote=1, mid=200, tok="bb")], acks(1, to=k + 5, after=0.005)),
+                "second-token": ([reg(0.01), reg(0.02, mid=101, tok="bb")], []),
+                "non-observer": ([reg(0.01), reg(0.02, remote=1, mid=200, tok="bb", mt="NON")], []),
+            }
+            for name, (regs, more) in variants.items():
+                if late == "ack-of-retransmission" and name not in ("alone", "prompt-observer"):
+                    continue
+                out.append(script(f"long-burst:{k}:{late}:{name}", regs + changes, [first] + others + more,
+                                  tail=60, draws=LONG_DRAWS))
+    return out
+
+
 def boundary_table():
     return (first_response() + trigger_offsets() + bursts() + reactions() + kth_copy() +
-            errors_and_shutdown() + several_observers() + finals() + last_triggers() + misc() + slow_add())
+            errors_and_shutdown() + several_observers() + finals() + last_triggers() + misc() + slow_add() +
+            sync_errors() + long_bursts())
 
 
 def random_script(rng, i):
@@ -414,6 +525,8 @@ def random_script(rng, i):
             one = ["D", t, rng.randrange(0, nobs)]
         elif x < 0.75:
             one = ["L", t, rng.randrange(0, nobs + 2), 69, 0]
+        elif x < 0.765:
+            one = ["F", t, rng.choice([0, 0, 1, 2]), rng.choice([1, 1, 1, 2])]
         elif x < 0.78:
             one = ["E", t, rng.choice([0, 1, 2])]
         elif x < 0.79:
